@@ -305,7 +305,7 @@ theorem C10_no_bad_link_before_rename (fs : FS) (work final : Str) (fs' : FS) (d
   obtain ⟨real, pm, mt, c, _, h1, h2⟩ := C10_hash_rejects_bad_links fs1 wp hh k t hg hu hne
   exact ⟨real, pm, mt, c, h1, h2⟩
 
-/-! ## 4. an absolute link into the work directory survives the checks (finding F31) -/
+/-! ## 4. an absolute link into the work directory is refused (finding F31, repaired) -/
 
 def c10Work : Str := "/t/b/.tmp-1".toList
 def c10Final : Str := "/t/b/HASH".toList
@@ -321,39 +321,22 @@ def c10FsAbs : FS :=
    (["t","b"].map String.toList, .dir 0o755 0),
    (["t"].map String.toList, .dir 0o755 0)]
 
-/-- **C10_cex_abs_link_into_workdir.** The link `d -> /t/b/.tmp-1/a` resolves inside the work
-directory while the walk runs and reads as a regular file when the tree is hashed, so
-`ensurePrepared` succeeds; after the rename to `/t/b/HASH` the link is still there with the same
-target, which no longer exists: the prepared package contains a dangling link. -/
-theorem C10_cex_abs_link_into_workdir :
-    let r := ensurePrepared c10FsAbs c10Work c10Final
-    r.2 = .ok c10F ∧
-    r.1.get (c10F ++ ["d".toList]) = some (.link "/t/b/.tmp-1/a".toList) ∧
-    r.1.evalSymlinks "/t/b/HASH/d".toList = none ∧
-    (r.1.readFile "/t/b/HASH/d".toList).toOption = none ∧
-    (∀ q, c10W <+: q → r.1.get q = none) := by
-  have hrun : ensurePrepared c10FsAbs c10Work c10Final =
-      ([(["t","b","HASH","d"].map String.toList, .link "/t/b/.tmp-1/a".toList),
-        (["t","b","HASH","a"].map String.toList, .file 0o644 0 "x".toList),
-        (["t","b","HASH"].map String.toList, .dir 0o755 0),
-        (["t","b"].map String.toList, .dir 0o755 0),
-        (["t"].map String.toList, .dir 0o755 0)], .ok c10F) := by decide
-  dsimp only
-  rw [hrun]
-  refine ⟨rfl, by decide, by decide, by decide, ?_⟩
-  intro q hq
-  rw [sn_get_eq_none]
-  intro e he heq
-  simp only [List.mem_cons, List.not_mem_nil, or_false] at he
-  rw [← heq] at hq
-  rcases he with rfl | rfl | rfl | rfl | rfl <;> revert hq <;> decide
+/-- **C10_abs_link_into_workdir_refused.** (F31, repaired.)  The link `d -> /t/b/.tmp-1/a` resolves
+inside the work directory while the walk runs and would read as a regular file when the tree is
+hashed — and would dangle after the rename to `/t/b/HASH`.  The callback now refuses it because its
+target is absolute: `ensurePrepared` fails and nothing is changed. -/
+theorem C10_abs_link_into_workdir_refused :
+    ensurePrepared c10FsAbs c10Work c10Final = (c10FsAbs, .fail) := by decide
 
-/-- the hypotheses of the theorems below hold in that run, except the one on absolute targets -/
-theorem C10_cex_abs_link_hyps :
+/-- it is the lexical check alone that refuses it: the filesystem satisfies the standing hypotheses,
+nothing is bound at the final name, and the link resolves physically to the regular file `a` inside
+the work directory -/
+theorem C10_abs_link_refused_hyps :
     AbsClean c10Work ∧ pathSegs c10Work = c10W ∧ pathSegs c10Final = c10F ∧
-    ¬ c10W <+: c10F ∧ ¬ c10F <+: c10W ∧
+    ¬ c10W <+: c10F ∧ ¬ c10F <+: c10W ∧ SanCheck c10FsAbs c10W ∧
     (∀ e ∈ c10FsAbs, ¬ c10F <+: e.1) ∧
     c10FsAbs.get (c10W ++ ["d".toList]) = some (.link "/t/b/.tmp-1/a".toList) ∧
+    c10FsAbs.evalSymlinks "/t/b/.tmp-1/d".toList = some (c10W ++ ["a".toList]) ∧
     isAbs "/t/b/.tmp-1/a".toList = true := by
   refine ⟨by unfold AbsClean; decide, ?_⟩
   decide
@@ -484,12 +467,38 @@ theorem C10_walk_sanitised (rules : List Rule) (fuel : Nat) (fs : FS) (work : St
   (sn_walk_post rules work fs fuel).1 fs work node fs1 r ⟨hc, hreal, SnSub.refl _, hN, hk⟩
     (sanAt_root hc hreal) hl hw hr
 
+/-- **C10_kept_links_relative_local.** Every link the walk of the work directory leaves (when it does
+not fail) has a relative target which, joined to the directory of the link relative to the package
+root, is local (`filepath.IsLocal`): as written it never climbs above the package root, so it does not
+mention the name the package directory has during the preparation. -/
+theorem C10_kept_links_relative_local (rules : List Rule) (fuel : Nat) (fs : FS) (work : Str) (node : Node)
+    (fs1 : FS) (r : SRes) (hc : AbsClean work) (hreal : RealDir fs (pathSegs work)) (hk : KeysPhysical fs)
+    (hN : SanNames (pathSegs work) fs) (hl : fs.lstat work = .ok node)
+    (hw : prepWalk rules work fuel fs work node = (fs1, r)) (hr : r = .cont ∨ r = .skipDir) :
+    ∀ x t, x ≠ [] → fs1.get (pathSegs work ++ x) = some (.link t) →
+      isAbs t = false ∧ isLocal (pathJoin (pathDir (joinWith '/' x)) t) = true := by
+  intro x t hx hg
+  have hpre : pathSegs work <+: pathSegs work ++ x := List.prefix_append _ _
+  have hs : SnSub fs1 fs := by
+    have := (snSub_walk rules work fuel).1 fs work node
+    rw [hw] at this; exact this
+  have hxn : ∀ c ∈ x, NameNS c := fun c hcm =>
+    hN _ _ (hs.get_some hg) hpre c (List.mem_append_right _ hcm)
+  obtain ⟨hrel, hdot⟩ := sn_pathRel_below hc hxn hx
+  obtain ⟨rel, hrel', hgood⟩ := C10_walk_sanitised rules fuel fs work node fs1 r hc hreal hk hN hl hw hr _ _ hg hpre
+  rw [hrel] at hrel'
+  cases hrel'
+  rcases hgood with e | ⟨_, _, _, hlok⟩
+  · exact absurd e hdot
+  · simpa [snLinkOK] using hlok
+
 /-- **C10_sanitised_before_rename.** After a successful `ensurePrepared`, in the state `fs1` that was
 hashed and then renamed (or dropped): `fs1` is the fetched tree with some bindings below the work
 directory removed, and every binding left strictly below the work directory
 * is not excluded by the package's ignore rules (nor, for a directory, as `rel/`),
-* is a regular file, a directory, or a link whose path resolves physically, in `fs1`, to a regular
-  file at or below the work directory. -/
+* is a regular file, a directory, or a link with a relative target that stays inside the package as
+  written (`filepath.IsLocal` of the target joined to the link's directory) and whose path resolves
+  physically, in `fs1`, to a regular file at or below the work directory. -/
 theorem C10_sanitised_before_rename (fs : FS) (work final : Str) (fs' : FS) (d : PPath)
     (hc : AbsClean work) (hreal : RealDir fs (pathSegs work)) (hk : KeysPhysical fs)
     (hN : SanNames (pathSegs work) fs)
@@ -501,8 +510,9 @@ theorem C10_sanitised_before_rename (fs : FS) (work final : Str) (fs' : FS) (d :
         (excludes (snRules fs work) (joinWith '/' x)).1 = false ∧
         (snIsDir n && (excludes (snRules fs work) (joinWith '/' x ++ ['/'])).1) = false ∧
         ((∃ pm mt c, n = .file pm mt c) ∨ (∃ pm mt, n = .dir pm mt) ∨
-         ∃ t, n = .link t ∧ ∃ real pm mt c, fs1.evalSymlinks (ofSegs (pathSegs work ++ x)) = some real ∧
-           pathSegs work <+: real ∧ fs1.lookup real = some (.file pm mt c)) := by
+         ∃ t, n = .link t ∧ isAbs t = false ∧ isLocal (pathJoin (pathDir (joinWith '/' x)) t) = true ∧
+           ∃ real pm mt c, fs1.evalSymlinks (ofSegs (pathSegs work ++ x)) = some real ∧
+             pathSegs work <+: real ∧ fs1.lookup real = some (.file pm mt c)) := by
   obtain ⟨nd, fs1, r, hl, hw, hr, hf⟩ := sn_ensure_ok h
   obtain ⟨wp, hwp, hh, _, hcase⟩ := sn_finish_ok hf
   have hstep : SnStep (pathSegs work) fs fs1 := by
@@ -526,7 +536,8 @@ theorem C10_sanitised_before_rename (fs : FS) (work final : Str) (fs' : FS) (d :
     | dir pm mt => exact Or.inr (Or.inl ⟨pm, mt, rfl⟩)
     | special => exact h3.1.elim
     | link t =>
-      obtain ⟨⟨fsk, realk, hsk, hek, hprek, _⟩, _⟩ := h3
+      obtain ⟨⟨fsk, realk, hsk, hek, hprek, _⟩, hlok⟩ := h3
+      simp only [snLinkOK, Bool.and_eq_true, Bool.not_eq_true'] at hlok
       have hne : pathSegs work ++ x ≠ pathSegs work := by
         intro e
         have := congrArg List.length e
@@ -537,7 +548,7 @@ theorem C10_sanitised_before_rename (fs : FS) (work final : Str) (fs' : FS) (d :
       rw [hek] at this
       have e : realk = real := Option.some.inj this
       rw [e] at hprek
-      exact Or.inr (Or.inr ⟨t, rfl, real, pm, mt, c, he1, hprek, hl1⟩)
+      exact Or.inr (Or.inr ⟨t, rfl, hlok.1, hlok.2, real, pm, mt, c, he1, hprek, hl1⟩)
 
 /-- **C10_sanitised_partial.** The same about the directory `ensurePrepared` returns, when nothing
 was bound at or below the final name beforehand: every binding strictly below the returned directory
@@ -558,8 +569,9 @@ theorem C10_sanitised_partial (fs : FS) (work final : Str) (fs' : FS) (d : PPath
         (excludes (snRules fs work) (joinWith '/' x)).1 = false ∧
         (snIsDir n && (excludes (snRules fs work) (joinWith '/' x ++ ['/'])).1) = false ∧
         ((∃ pm mt c, n = .file pm mt c) ∨ (∃ pm mt, n = .dir pm mt) ∨
-         ∃ t, n = .link t ∧ ∃ real pm mt c, fs1.evalSymlinks (ofSegs (pathSegs work ++ x)) = some real ∧
-           pathSegs work <+: real ∧ fs1.lookup real = some (.file pm mt c)) := by
+         ∃ t, n = .link t ∧ isAbs t = false ∧ isLocal (pathJoin (pathDir (joinWith '/' x)) t) = true ∧
+           ∃ real pm mt c, fs1.evalSymlinks (ofSegs (pathSegs work ++ x)) = some real ∧
+             pathSegs work <+: real ∧ fs1.lookup real = some (.file pm mt c)) := by
   have hd : d = pathSegs final := by
     obtain ⟨_, _, _, _, _, _, hf⟩ := sn_ensure_ok h
     obtain ⟨_, _, _, hd, _⟩ := sn_finish_ok hf
@@ -593,20 +605,20 @@ theorem C10_sanitised_partial (fs : FS) (work final : Str) (fs' : FS) (d : PPath
 
 /-! ## 9. links of the prepared package -/
 
-/-- **C10_links_relative_partial.** If nothing is bound at or below the final name beforehand and no
-link below the work directory has an absolute target, then after a successful `ensurePrepared` every
-link below the returned directory has a relative target, and it is one of the links of the fetched
-tree, at the same place relative to the package root.  (`_partial`: without the hypothesis on
-absolute targets see `C10_cex_abs_link_into_workdir`; a relative target need not resolve inside the
-package after the rename either, see `C10_cex_rel_link_through_workdir_name`.) -/
-theorem C10_links_relative_partial (fs : FS) (work final : Str) (fs' : FS) (d : PPath)
-    (hc : AbsClean work) (hreal : RealDir fs (pathSegs work))
+/-- **C10_links_relative.** If nothing is bound at or below the final name beforehand, then after a
+successful `ensurePrepared` every link at or below the returned directory is one of the links of the
+fetched tree, at the same place relative to the package root, its target is relative and, joined to
+the link's directory, local.  (Before the repair of F31 this needed a hypothesis excluding absolute
+targets.) -/
+theorem C10_links_relative (fs : FS) (work final : Str) (fs' : FS) (d : PPath)
+    (hc : AbsClean work) (hreal : RealDir fs (pathSegs work)) (hk : KeysPhysical fs)
+    (hN : SanNames (pathSegs work) fs)
     (hfresh : ∀ q, pathSegs final <+: q → fs.get q = none)
-    (hrel : ∀ k t, fs.get k = some (.link t) → pathSegs work <+: k → isAbs t = false)
     (h : ensurePrepared fs work final = (fs', .ok d)) :
     ∀ k t, fs'.get k = some (.link t) → d <+: k →
-      isAbs t = false ∧ ∃ x, k = d ++ x ∧ fs.get (pathSegs work ++ x) = some (.link t) := by
-  obtain ⟨n, fs1, r, hl, hw, _, hf⟩ := sn_ensure_ok h
+      isAbs t = false ∧ ∃ x, x ≠ [] ∧ k = d ++ x ∧ fs.get (pathSegs work ++ x) = some (.link t) ∧
+        isLocal (pathJoin (pathDir (joinWith '/' x)) t) = true := by
+  obtain ⟨n, fs1, r, hl, hw, hr, hf⟩ := sn_ensure_ok h
   obtain ⟨wp, hwp, _, hd, hcase⟩ := sn_finish_ok hf
   have hs : SnSub fs1 fs := by
     have := (snSub_walk (snRules fs work) work prepFuel).1 fs work n
@@ -631,29 +643,48 @@ theorem C10_links_relative_partial (fs : FS) (work final : Str) (fs' : FS) (d : 
         rw [hfresh k' hpre] at this; cases this
     rw [e, sn_renameDir_moved fs1 _ _ x hfree] at hg
     have hg0 := hs.get_some hg
-    exact ⟨hrel _ t hg0 (List.prefix_append _ _), x, rfl, hg0⟩
+    have hx : x ≠ [] := by
+      intro e0
+      subst e0
+      rw [List.append_nil] at hg0
+      obtain ⟨pm, mt, hdir⟩ := hreal _ (List.prefix_refl _)
+      rw [lookup_ne_nil _ _ (hk _ _ hg0).1, hg0] at hdir
+      cases hdir
+    obtain ⟨h1, h2⟩ := C10_kept_links_relative_local _ _ fs work n fs1 r hc hreal hk hN hl hw hr x t hx hg
+    exact ⟨h1, x, hx, rfl, hg0, h2⟩
 
-/-- **C10_links_resolve_after_rename_partial.** What is missing for the links of the prepared package
-to resolve inside it is a condition on their targets that the callback does not check.  Assume, in
-addition, that every link below the work directory is *local* (`SnLocalLink`: relative target, all
-`..` first, and no more of them than the link is deep below the work directory), and that the final
-directory is a sibling of the work directory.  Then after a successful `ensurePrepared` every link
-strictly below the returned directory resolves physically to a regular file at or below it. -/
-theorem C10_links_resolve_after_rename_partial (fs : FS) (work final : Str) (fs' : FS) (d : PPath)
+/-- **C10_links_survive_rename.** (F31, repaired.)  Assume nothing is bound at or below the final name
+beforehand and the final directory is a sibling of the work directory.  After a successful
+`ensurePrepared`, in the resulting state — *after* the rename — every link strictly below the returned
+directory `d`
+* has a relative target,
+* which, joined to the directory of the link relative to the package root, is local
+  (`filepath.IsLocal`): as written it stays inside the package,
+* and the link resolves physically, in the resulting state, to a regular file below `d`.
+
+No hypothesis on the links of the fetched tree is needed any more.  The proof uses all three checks:
+the lexical one of the callback (the target never climbs above the package root as written), the
+hash (every link reads as a regular file, so no link can serve as a directory on the way and the
+walk the kernel does is the one written in the target — `C10_walk_alone_not_enough` shows that this
+is needed), and with these the resolution never looks at anything outside the package
+(`sn_resolve_rekey_go`), hence goes the same way after the subtree is re-keyed. -/
+theorem C10_links_survive_rename (fs : FS) (work final : Str) (fs' : FS) (d : PPath)
     (hc : AbsClean work) (hcf : AbsClean final) (hreal : RealDir fs (pathSegs work)) (hk : KeysPhysical fs)
     (hN : SanNames (pathSegs work) fs)
     (hfresh : ∀ q, pathSegs final <+: q → fs.get q = none)
     (hWne : pathSegs work ≠ []) (hFne : pathSegs final ≠ [])
     (hsib : (pathSegs work).dropLast = (pathSegs final).dropLast)
-    (hloc : ∀ p t, fs.get p = some (.link t) → pathSegs work <+: p → SnLocalLink (pathSegs work) p t)
     (h : ensurePrepared fs work final = (fs', .ok d)) :
+    d = pathSegs final ∧
     ∀ x t, x ≠ [] → fs'.get (d ++ x) = some (.link t) →
+      isAbs t = false ∧ isLocal (pathJoin (pathDir (joinWith '/' x)) t) = true ∧
       ∃ y pm mt c, fs'.evalSymlinks (ofSegs (d ++ x)) = some (d ++ y) ∧
         fs'.lookup (d ++ y) = some (.file pm mt c) := by
   have hd : d = pathSegs final := by
     obtain ⟨_, _, _, _, _, _, hf⟩ := sn_ensure_ok h
     obtain ⟨_, _, _, hd, _⟩ := sn_finish_ok hf
     exact hd
+  refine ⟨hd, ?_⟩
   obtain ⟨fs1, hshr, hk1, hcase, hall⟩ := C10_sanitised_before_rename fs work final fs' d hc hreal hk hN h
   have hs : SnSub fs1 fs := by
     intro q
@@ -678,15 +709,49 @@ theorem C10_links_resolve_after_rename_partial (fs : FS) (work final : Str) (fs'
   · subst e
     have hg1 : fs1.get (pathSegs work ++ x) = some (.link t) := by
       rw [sn_renameDir_moved fs1 _ _ x hfree] at hg; exact hg
+    have hWn := absClean_segs work hc
+    have hFn := absClean_segs final hcf
+    -- what is known of every link of `fs1` below the work directory
+    have hlinks : ∀ c s t, fs1.get (pathSegs work ++ c ++ [s]) = some (.link t) →
+        (∀ z ∈ pathSegs work ++ c ++ [s], NameNS z) ∧ isAbs t = false ∧
+        isLocal (pathJoin (pathDir (joinWith '/' (c ++ [s]))) t) = true ∧
+        ∃ real, fs1.resolvePath (ofSegs (pathSegs work ++ c ++ [s])) true = .ok real ∧
+          ∃ pm mt ct, fs1.lookup real = some (.file pm mt ct) := by
+      intro c s t hget
+      have hget' : fs1.get (pathSegs work ++ (c ++ [s])) = some (.link t) := by
+        rw [← List.append_assoc]; exact hget
+      have hn : ∀ z ∈ pathSegs work ++ c ++ [s], NameNS z :=
+        hN _ _ (hs.get_some hget) (by rw [List.append_assoc]; exact List.prefix_append _ _)
+      obtain ⟨_, _, hkind⟩ := hall (c ++ [s]) _ (by simp) hget'
+      rcases hkind with ⟨_, _, _, e⟩ | ⟨_, _, e⟩ | ⟨t', e, habs, hloc, real, pm, mt, ct, hev, _, hfile⟩
+      · cases e
+      · cases e
+      · cases e
+        rw [← List.append_assoc] at hev
+        exact ⟨hn, habs, hloc, real, (sn_evalSymlinks_some hev).1, pm, mt, ct, hfile⟩
+    have hloc1 : ∀ c s t, fs1.get (pathSegs work ++ c ++ [s]) = some (.link t) →
+        isAbs t = false ∧ isLocal.go c.length (pathSegs t) = true := by
+      intro c s t hget
+      obtain ⟨hn, habs, hloc, _⟩ := hlinks c s t hget
+      refine ⟨habs, sn_linkOK_go c s t ?_ (hn s (by simp)) hloc⟩
+      intro z hz
+      exact hn z (List.mem_append_left _ (List.mem_append_right _ hz))
+    have hblock : ∀ c s t, fs1.get (pathSegs work ++ c ++ [s]) = some (.link t) →
+        ∀ (m : Nat) (rest : List Seg) (f : Bool) (r : PPath), rest ≠ [] →
+          resolve fs1 m (pathSegs work ++ c) (pathSegs t ++ rest) f ≠ .ok r := by
+      intro c s t hget
+      obtain ⟨hn, habs, _, real, hres, hfile⟩ := hlinks c s t hget
+      exact sn_link_blocks hk1 hn hget habs hres hfile
+    -- the link at hand
     obtain ⟨_, _, hkind⟩ := hall x _ hx hg1
-    rcases hkind with ⟨_, _, _, e⟩ | ⟨_, _, e⟩ | ⟨t', e, real, pm, mt, c, hev, hpre, hfile⟩
+    rcases hkind with ⟨_, _, _, e⟩ | ⟨_, _, e⟩ | ⟨t', e, habs, hlocal, real, pm, mt, c, hev, hpre, hfile⟩
     · cases e
     · cases e
-    · -- components
+    · cases e
+      refine ⟨habs, hlocal, ?_⟩
+      -- components
       have hxn : ∀ s ∈ x, NameNS s := fun s hsm =>
         hN _ _ (hs.get_some hg1) (List.prefix_append _ _) s (List.mem_append_right _ hsm)
-      have hWn := absClean_segs work hc
-      have hFn := absClean_segs final hcf
       have hWx : ∀ s ∈ pathSegs work ++ x, NameNS s := by
         intro s hsm
         rcases List.mem_append.mp hsm with h1 | h1
@@ -715,17 +780,9 @@ theorem C10_links_resolve_after_rename_partial (fs : FS) (work final : Str) (fs'
         (fun s hsm => (hWn s hsm).1.2.2) hspineW hres
       rw [List.nil_append] at hin
       have hxp : ∀ s ∈ x, Plain s := fun s hsm => (hxn s hsm).1
-      have hxdd : ∀ s ∈ x, s ≠ dotdot := fun s hsm => (hxp s hsm).2.2
-      have hloc1 : ∀ p t, fs1.get p = some (.link t) → pathSegs work <+: p →
-          SnLocalLink (pathSegs work) p t := fun p t hp hu => hloc p t (hs.get_some hp) hu
       have hin' : resolve fs1 n (pathSegs work ++ []) x true = .ok real := by simpa using hin
-      obtain ⟨y, hy, hR⟩ := sn_resolve_rekey (F := pathSegs final) hfree hloc1 n [] x true real
-        (tidySegs_names x hxp)
-        (by
-          have := snUps_append_names [] x hxdd
-          simp only [List.nil_append] at this
-          rw [this]; simp [snUps])
-        hin'
+      obtain ⟨y, hy, hR⟩ := sn_resolve_rekey_go (F := pathSegs final) hfree hloc1 hblock n [] x true real
+        (fun s hsm => ⟨(hxp s hsm).1, (hxp s hsm).2.1⟩) (sn_go_names x hxp _) hin'
       rw [List.append_nil] at hR
       subst hy
       -- the spine of `F` in the renamed filesystem
@@ -803,25 +860,21 @@ def c10FsRel : FS :=
    (["t","b"].map String.toList, .dir 0o755 0),
    (["t"].map String.toList, .dir 0o755 0)]
 
-/-- **C10_cex_rel_link_through_workdir_name.** A *relative* link that leaves the work directory and
-comes back through its temporary name passes the walk (it resolves inside) and the hash;
-`ensurePrepared` succeeds, and after the rename the link dangles. -/
-theorem C10_cex_rel_link_through_workdir_name :
-    let r := ensurePrepared c10FsRel c10Work c10Final
-    r.2 = .ok c10F ∧
-    r.1.get (c10F ++ ["d".toList]) = some (.link "../.tmp-1/a".toList) ∧
+/-- **C10_rel_link_through_workdir_name_refused.** (F31, repaired.)  A *relative* link that leaves the
+work directory and comes back through its temporary name resolves inside while the walk runs, would
+pass the hash, and would dangle after the rename.  The callback now refuses it because its target,
+joined to the link's directory, is not local (`../.tmp-1/a`): `ensurePrepared` fails and nothing is
+changed. -/
+theorem C10_rel_link_through_workdir_name_refused :
+    ensurePrepared c10FsRel c10Work c10Final = (c10FsRel, .fail) := by decide
+
+/-- again the lexical check alone refuses it -/
+theorem C10_rel_link_refused_hyps :
+    SanCheck c10FsRel c10W ∧ (∀ e ∈ c10FsRel, ¬ c10F <+: e.1) ∧
     isAbs "../.tmp-1/a".toList = false ∧
-    r.1.evalSymlinks "/t/b/HASH/d".toList = none ∧
-    SanCheck c10FsRel c10W ∧ (∀ e ∈ c10FsRel, ¬ c10F <+: e.1) := by
-  have hrun : ensurePrepared c10FsRel c10Work c10Final =
-      ([(["t","b","HASH","d"].map String.toList, .link "../.tmp-1/a".toList),
-        (["t","b","HASH","a"].map String.toList, .file 0o644 0 "x".toList),
-        (["t","b","HASH"].map String.toList, .dir 0o755 0),
-        (["t","b"].map String.toList, .dir 0o755 0),
-        (["t"].map String.toList, .dir 0o755 0)], .ok c10F) := by decide
-  dsimp only
-  rw [hrun]
-  refine ⟨rfl, by decide, by decide, by decide, by decide, by decide⟩
+    c10FsRel.evalSymlinks "/t/b/.tmp-1/d".toList = some (c10W ++ ["a".toList]) ∧
+    isLocal (pathJoin (pathDir "d".toList) "../.tmp-1/a".toList) = false := by
+  decide
 
 /-! ## 10. on failure the temporary directory stays -/
 
